@@ -80,7 +80,9 @@ def fam4(k):
              ("F(x,...)", ["__VA_ARGS__", "x", "#__VA_ARGS__", "##", ",", "1"]),
              ("F(x,y...)", ["y", "x", "#y", "##", ",", "1"])]
     # k is an object-like macro: a variable argument that names it is pre-expanded for __VA_ARGS__ but not for #__VA_ARGS__ / ##
-    inv = ["F()", "F(1)", "F(1,2)", "F(1,2,3)", "F(,)", "F((1,2),3)", "F(a b , c)", "F(k)", "F(k,2)", "F(1,k,k)"]
+    inv = ["F()", "F(1)", "F(1,2)", "F(1,2,3)", "F(,)", "F((1,2),3)", "F(a b , c)", "F(k)", "F(k,2)", "F(1,k,k)",
+           # a nested call of the same macro in a variable argument that is not the last one (rescanning cannot make up for a missing pre-expansion)
+           "F(1,F(2,3),4)", "F(F(1),2)"]
     for h, P in heads:
         for b in strings(P, k):
             for i in inv:
